@@ -265,6 +265,26 @@ def _const_str_list(fn, name, rel):
     return [e.value for e in asg[0].value.elts]
 
 
+def _pop_helper_ok(fn, loop, lists):
+    """The loop `for key in <p>: self._selection.pop(key, None)` is the whole body of a local helper `def h(<p>)` of
+    select() that is only ever CALLED, each time with one of the literal selector lists (a behaviour-preserving
+    refactoring of the three inline loops, e.g. /verif/benign/C02-1)."""
+    for h in ast.walk(fn):
+        if not (isinstance(h, ast.FunctionDef) and h is not fn):
+            continue
+        body = [s for s in h.body if not (isinstance(s, ast.Expr) and isinstance(s.value, ast.Constant))]
+        a = h.args
+        if len(body) != 1 or body[0] is not loop or [x.arg for x in a.args] != [_norm(loop.iter)] or a.defaults \
+                or a.vararg or a.kwarg or a.kwonlyargs or a.posonlyargs or h.decorator_list:
+            continue
+        uses = [n for n in ast.walk(fn) if isinstance(n, ast.Name) and n.id == h.name]
+        calls = [n for n in ast.walk(fn) if isinstance(n, ast.Call) and isinstance(n.func, ast.Name) and n.func.id == h.name]
+        if len(uses) == len(calls) and calls and all(len(c.args) == 1 and not c.keywords and _norm(c.args[0]) in lists
+                                                     for c in calls):
+            return True
+    return False
+
+
 def item_ds_select_keeps(repo, out):
     """katdal/dataset.py DataSet.select: the keyword arguments are merged into self._selection (which only ever
     loses time / frequency / product selectors), the loop over self._selection assigns `self._weights_keep = v` for
@@ -289,7 +309,8 @@ def item_ds_select_keeps(repo, out):
     for n in ast.walk(fn):
         if isinstance(n, ast.For) and any(isinstance(m, ast.Call) and _norm(m) == 'self._selection.pop(key,None)'
                                           for m in ast.walk(n)):
-            if _norm(n.target) != 'key' or _norm(n.iter) not in lists or len(n.body) != 1:
+            if _norm(n.target) != 'key' or len(n.body) != 1 \
+                    or not (_norm(n.iter) in lists or _pop_helper_ok(fn, n, lists)):
                 raise TranslateError('%s:select: self._selection.pop outside a loop over a selector list' % rel)
     for n in ast.walk(fn):
         if isinstance(n, (ast.Assign, ast.AugAssign, ast.Delete)) and 'self._selection' in _norm(n) \
@@ -455,7 +476,7 @@ def item_flag_setters(repo, out):
                 ('setter', p, pre_p, ['names=_selection_to_list(names,all=' + known + ')', 'selection=np.zeros(8,dtype=np.uint8)',
                                       'fornameinnames:try:selection[' + known + '.index(name)]=1exceptValueError:' + _WARN,
                                       'flagmask=%s', 'self._flags_select=flagmask'])):
-            got = [s for s in got]
+            got = [_per_name_form(s, known)[0] for s in got]       # the shape of the loop is item_setter_shape's
             # the warning call inside the try/except is kept by _strip_noise (it is the handler body): normalise it
             got = [__import__('re').sub(r'logger\.warning\(.*\)$', 'logger.warning(%W)', s) if s.startswith('fornameinnames') else s
                    for s in got]
@@ -503,13 +524,156 @@ def item_flag_setters(repo, out):
     want = ['ifisinstance(names,str):ifnotnames:return[]elifnamesingroups:returnlist(groups[names])'
             "else:return[name.strip()fornameinnames.split(',')]"
             'elifis_iterable(names):returnlist(names)else:return[names]']
-    if len(fns) != 1 or [_norm(s) for s in _strip_noise(fns[0].body)] != want:
+    if len(fns) != 1 or [_canon_split(_norm(s))[0] for s in _strip_noise(fns[0].body)] != want:
         raise TranslateError('%s: _selection_to_list has an unexpected body' % rel)
     b = lambda x: 'true' if x else 'false'   # noqa: E731
     out.append('Definition flag_setter_flip : list (string * (bool * bool)) := [%s].'
                % '; '.join('(%s, (%s, %s))' % (coq_string(f), b(s), b(g)) for f, s, g in flips))
     out.append('Definition ds_weight_names : list (string * list string) := [%s].'
                % '; '.join('(%s, %s)' % (coq_string(f), coq_strings(w)) for f, w in wnames))
+
+
+_LOOP_PER_NAME = 'for name in names:\n    try:\n        selection[%s.index(name)] = 1\n    except ValueError:\n        logger.warning("x")\n'
+_LOOP_WHOLE = 'try:\n    for name in names:\n        selection[%s.index(name)] = 1\nexcept ValueError:\n    logger.warning("x")\n'
+
+
+def _tmpl(text):
+    """A template written as Python source, in the translator's normal form (docstrings, comments, logging calls and
+    message texts do not matter), compared without blanks."""
+    from vh.translate import normalise_source
+    return normalise_source(text).replace(' ', '').replace('\n', '')
+
+
+def _per_name_form(stmt, known):
+    """(statement in the per-name form, shape): the marking loop of a `_flags_keep` setter either handles the
+    ValueError of an unknown name PER NAME (`for name: try: ... except ValueError: warn`, shape 'per_name': the loop
+    goes on with the next name) or around the WHOLE loop (`try: for name: ... except ValueError: warn`, shape
+    'whole_loop': the first unknown name ends the loop and every name after it is dropped).  Other statements are
+    returned unchanged with shape None."""
+    import re
+    stmt = re.sub(r'logger\.warning\(.*\)$', 'pass' if NORMALISE else 'logger.warning(%W)', stmt) \
+        if stmt.startswith(('fornameinnames', 'try:fornameinnames')) else stmt
+    per, whole = _tmpl(_LOOP_PER_NAME % known), _tmpl(_LOOP_WHOLE % known)
+    canon = 'fornameinnames:try:selection[' + known + '.index(name)]=1exceptValueError:' + _WARN
+    if re.sub(r'logger\.warning\(.*\)$', 'pass', stmt) in (per, re.sub(r'logger\.warning\(.*\)$', 'pass', per)) or stmt == canon:
+        return canon, 'per_name'
+    if re.sub(r'logger\.warning\(.*\)$', 'pass', stmt) in (whole, re.sub(r'logger\.warning\(.*\)$', 'pass', whole)):
+        return canon, 'whole_loop'
+    return stmt, None
+
+
+def item_setter_shape(repo, out):
+    """Where the `except ValueError` of the marking loop sits in the `_flags_keep` setter of each format (per name /
+    around the whole loop): the model (Model/FlagsArg.v selection_bits_src) follows either shape, the theorems need
+    'per_name'."""
+    shapes = []
+    for fmt, rel, cname, known in (('v4', 'katdal/visdatav4.py', 'VisibilityDataV4', 'FLAG_NAMES'),
+                                   ('v3', 'katdal/h5datav3.py', 'H5DataV3', 'known_flags'),
+                                   ('v2', 'katdal/h5datav2.py', 'H5DataV2', 'known_flags')):
+        cls = _class(_parse(repo, rel), cname, rel)
+        _get, put = _prop_funcs(cls, '_flags_keep', rel)
+        found = [sh for sh in (_per_name_form(_norm(s), known)[1] for s in _strip_noise(put.body)) if sh]
+        if len(found) != 1:
+            raise TranslateError('%s: %s._flags_keep setter: the loop `for name in names: selection[%s.index(name)] = 1` '
+                                 'with its ValueError handler was not found exactly once' % (rel, cname, known))
+        shapes.append((fmt, found[0]))
+    out.append('Definition flag_setter_loop : list (string * string) := [%s].'
+               % '; '.join('(%s, %s)' % (coq_string(k), coq_string(v)) for k, v in shapes))
+
+
+_SPLIT_RE = r"return\[name(\.strip\(\)|\.lstrip\(\)|\.rstrip\(\)|)fornameinnames\.split\('(.)'\)\]"
+
+
+def _canon_split(stmt):
+    """(statement with the comprehension of the split branch in its canonical form, (strip method, separator) | None)"""
+    import re
+    m = re.search(_SPLIT_RE, stmt)
+    if not m:
+        return stmt, None
+    return stmt[:m.start()] + "return[name.strip()fornameinnames.split(',')]" + stmt[m.end():], \
+        ((m.group(1) or '.none()')[1:-2], m.group(2))
+
+
+_SEL_TO_LIST = """
+if isinstance(names, str):
+    if not names:
+        return []
+    elif names in groups:
+        return list(groups[names])
+    else:
+        return [name.strip() for name in names.split(',')]
+elif is_iterable(names):
+    return list(names)
+else:
+    return [names]
+"""
+
+
+def item_selection_to_list(repo, out):
+    """katdal/dataset.py `_selection_to_list(names, **groups)`: order of the tests (string: empty -> [], group name ->
+    the group, else split + strip; other iterables as they are; a scalar -> [scalar]), and the two constants of the
+    split branch, which the model uses: the separator and the strip method applied to EVERY field (so also to the
+    first and the last one, i.e. to the ends of the whole string)."""
+    rel = 'katdal/dataset.py'
+    tree = _parse(repo, rel)
+    fns = [n for n in tree.body if isinstance(n, ast.FunctionDef) and n.name == '_selection_to_list']
+    if len(fns) != 1:
+        raise TranslateError('%s: _selection_to_list not found once' % rel)
+    fn = fns[0]
+    if [a.arg for a in fn.args.args] != ['names'] or fn.args.vararg or fn.args.kwonlyargs or fn.args.defaults \
+            or not fn.args.kwarg or fn.args.kwarg.arg != 'groups':
+        raise TranslateError('%s: _selection_to_list: signature is not (names, **groups)' % rel)
+    body = ''.join(_norm(s) for s in _strip_noise(fn.body))
+    canon, consts = _canon_split(body)
+    if consts is None or canon != _tmpl(_SEL_TO_LIST):
+        raise TranslateError('%s: _selection_to_list has an unexpected body' % rel)
+    out.append('Definition sel_to_list_strip : string := %s.' % coq_string(consts[0]))
+    out.append('Definition sel_to_list_sep : string := %s.' % coq_string(consts[1]))
+    # the keyword under which each setter hands its known names to _selection_to_list (the group name of "everything")
+    keys = []
+    for fmt, rel2, cname in (('v4', 'katdal/visdatav4.py', 'VisibilityDataV4'), ('v3', 'katdal/h5datav3.py', 'H5DataV3'),
+                             ('v2', 'katdal/h5datav2.py', 'H5DataV2')):
+        _get, put = _prop_funcs(_class(_parse(repo, rel2), cname, rel2), '_flags_keep', rel2)
+        calls = [n for n in ast.walk(put) if isinstance(n, ast.Call) and _norm(n.func) == '_selection_to_list']
+        if len(calls) != 1 or len(calls[0].args) != 1 or _norm(calls[0].args[0]) != 'names' or len(calls[0].keywords) != 1 \
+                or calls[0].keywords[0].arg is None:
+            raise TranslateError('%s: %s._flags_keep setter: not one call _selection_to_list(names, <group>=<known>)' % (rel2, cname))
+        keys.append((fmt, calls[0].keywords[0].arg))
+    out.append('Definition flag_setter_group_key : list (string * string) := [%s].'
+               % '; '.join('(%s, %s)' % (coq_string(k), coq_string(v)) for k, v in keys))
+
+
+def item_h5_flag_table(repo, out):
+    """H5DataV3 / H5DataV2 __init__: the flag table of the FILE (`flags_description`, when the file has one) - is it
+    decoded to str (`to_str(<group>['flags_description'][:])`; h5py delivers fixed-length strings as bytes, and a
+    bytes name never equals the str a user asks for) or used as read; the number of rows the setter / getter insist
+    on (their assert against the 8 entries of `selection`)."""
+    res = []
+    for fmt, rel, cname in (('v3', 'katdal/h5datav3.py', 'H5DataV3'), ('v2', 'katdal/h5datav2.py', 'H5DataV2')):
+        cls = _class(_parse(repo, rel), cname, rel)
+        init = _func(cls, '__init__', rel)
+        fd = _self_assigns(init, '_flags_description')
+        if len(fd) != 1 or not isinstance(fd[0].value, ast.IfExp):
+            raise TranslateError('%s: self._flags_description is not assigned once by a conditional expression' % rel)
+        v = fd[0].value
+        import re
+        m = re.fullmatch(r"'flags_description'in(\w+)", _norm(v.test))
+        if not m:
+            raise TranslateError("%s: self._flags_description: test is not `'flags_description' in <group>`" % rel)
+        g = m.group(1)
+        if _norm(v.body) == "to_str(%s['flags_description'][:])" % g:
+            dec = True
+        elif _norm(v.body) in ("%s['flags_description']" % g, "%s['flags_description'][:]" % g):
+            dec = False
+        else:
+            raise TranslateError('%s: self._flags_description: unexpected value for a file with its own table' % rel)
+        imp = [a for n in ast.walk(_parse(repo, rel)) if isinstance(n, ast.ImportFrom) and n.module == 'sensordata'
+               for a in n.names if (a.asname or a.name) == 'to_str' and a.name == 'to_str']
+        if dec and len(imp) != 1:
+            raise TranslateError('%s: to_str is not sensordata.to_str' % rel)
+        res.append((fmt, dec))
+    out.append('Definition h5_flag_table_decoded : list (string * bool) := [%s].'
+               % '; '.join('(%s, %s)' % (coq_string(k), 'true' if v else 'false') for k, v in res))
 
 
 def _flags_import_as(tree, alias, rel):
@@ -555,4 +719,4 @@ def item_h5_flag_transform(repo, out):
 
 
 ITEMS = [item_v4_indexers, item_v4_flag_consts, item_ds_set_keep, item_ds_select_keeps, item_concat_set_keep,
-         item_flag_setters, item_h5_flag_transform]
+         item_flag_setters, item_h5_flag_transform, item_setter_shape, item_selection_to_list, item_h5_flag_table]
